@@ -161,6 +161,24 @@ func TestVerifReplayTypes(t *testing.T) {
 			}
 		}
 	}
+	// Rollback (called by the rollback timer): exactly one rollback, slot cleared whatever the rollback returns
+	for _, rbFails := range []bool{false, true} {
+		fn := "(*datastore/types.TransactionManager).Rollback"
+		counts[fn]++
+		rb := &vrRollbacker{fail: rbFails}
+		tm := NewTransactionManager(rb)
+		tr := NewTransaction("tx-open", tm)
+		tr.SetTimeout(time.Hour)
+		if _, err := tm.RegisterTransaction(context.Background(), tr); err != nil {
+			t.Fatalf("register: %v", err)
+		}
+		rtr := NewTransaction("tx-open - Rollback", tm)
+		err := tm.Rollback(context.Background(), rtr)
+		in := fmt.Sprintf("open=tx-open,rollbackFails=%v", rbFails)
+		if len(rb.calls) != 1 || rb.calls[0] != rtr || tm.transaction != nil {
+			fail(fn, "one_rollback_slot_cleared", in, fmt.Sprintf("rollbacks=%d slotCleared=%v err=%v", len(rb.calls), tm.transaction == nil, err))
+		}
+	}
 	// RegisterTransaction exclusivity
 	{
 		fn := "(*datastore/types.TransactionManager).RegisterTransaction"
